@@ -19,7 +19,7 @@ pub fn spec() -> Spec {
         assumptions: &["symbols are built through build_set/build_sym_using_vs (validated by C02)"],
         bounds: |t| json!({"dim1_max_size": 5, "dim2_max_size": t.pick(4, 5), "dim3_max_size": t.pick(3, 4), "V": [1,2,3],
             "dim2_size6_max_two_branched_orbits": t.is_thorough(), "dim3_size4_V": [1,2],
-            "mid": "class representatives of D-sets from the generator: dim 2 sizes 5-10 [6-12], dim 3 sizes 4-7 [8], dim 1 sizes 6-12 [16]; V = {1,2,3} on <= 1 [2] orbits (dim 1: 2), plus uniform degrees (m = lcm of orbit lengths), every single orbit doubled, and four assignments with every orbit branched; 9 systematic renumberings each",
+            "rotations": "class representatives of D-sets of dim 3 size 8 [8-9] and dim 2 size 11 [11-12]: unbranched, uniform degrees and four fully branched assignments under the systematic renumberings AND every rotation of the chamber numbers", "mid": "class representatives of D-sets from the generator: dim 2 sizes 5-10 [6-12], dim 3 sizes 4-7 [8], dim 1 sizes 6-12 [16]; V = {1,2,3} on <= 1 [2] orbits (dim 1: 2), plus uniform degrees (m = lcm of orbit lengths), every single orbit doubled, and four assignments with every orbit branched; 9 systematic renumberings each",
             "large": "coset symbols of finite Coxeter groups [3,3] [4,3] [5,3] [2,12] [7,2] [3,3,3] [4,3,3] ([3,4,3] thorough) modulo small subgroups, built by the reference Todd-Coxeter, 8-384 (thorough 1152) chambers, 9 systematic renumberings each"}),
     }
 }
@@ -207,6 +207,56 @@ fn mid_family(ctx: &mut Ctx) {
     }
 }
 
+/// one size further than the mid family, with few assignments per D-set (unbranched, uniform degrees, four fully
+/// branched ones) but more numberings: every rotation d -> d + c of the chamber numbers besides the systematic
+/// family (a tie between two start chambers only shows when the numbering puts the wrong one first)
+fn rotations_family(ctx: &mut Ctx) {
+    use rust_dsymbols::dsets::DSet;
+    use rust_dsymbols::generators::dset_generators::DSets;
+    let tier = ctx.tier;
+    for (dim, lo, hi) in [(3usize, 8usize, tier.pick(8, 9)), (2, 11, tier.pick(11, 12))] {
+        let mut it = ctx.supply("DSets::new", || Some(DSets::new(dim, hi)));
+        loop {
+            let ds = match it.as_mut().map(|g| ctx.guard(|| g.next())) {
+                Some(Ok(Some(d))) => d,
+                Some(Err(m)) => {
+                    ctx.cap_hit(format!("input supplier DSets::next panicked ({}): the rest of the rotations family was NOT explored", m));
+                    break;
+                }
+                _ => break,
+            };
+            if ds.size() < lo || !ctx.take() {
+                continue;
+            }
+            let plain = match from_dset(&ds) {
+                Some(p) if p.is_involutive() && p.is_connected() && p.commutes() => p,
+                _ => continue,
+            };
+            let n = plain.n;
+            let mut rn: Vec<Vec<usize>> = systematic_renumberings(n).into_iter().map(|x| x.1).collect();
+            for c in 1..n {
+                let p: Vec<usize> = (0..n).map(|d| (d + c) % n).collect();
+                if !rn.contains(&p) {
+                    rn.push(p);
+                }
+            }
+            let mut syms: Vec<RS> = vec![RS { n, ops: plain.ops.clone(), v: vec![vec![1; n]; dim] }];
+            let st = structured_assignments(&plain.ops);
+            let k = st.len();
+            syms.push(st[0].clone());
+            syms.extend(st[k - 4..].iter().cloned());
+            for s in syms {
+                let first = s.relabel(&rn[0]);
+                for p in &rn {
+                    let t = s.relabel(p);
+                    check_one(ctx, &t, Some(&first), "rotations");
+                    ctx.add("rotation_symbols", 1);
+                }
+            }
+        }
+    }
+}
+
 fn run(ctx: &mut Ctx) {
     let tier = ctx.tier;
     let mut fams: Vec<(usize, usize, Vec<usize>, usize)> = vec![];
@@ -232,6 +282,7 @@ fn run(ctx: &mut Ctx) {
     }
     large_family(ctx);
     mid_family(ctx);
+    rotations_family(ctx);
     // degrees beyond 2^62 (as long as every m = r * v is representable): codes that are compared by subtraction
     // or through a signed type go wrong when two degrees are 2^63 apart
     {
